@@ -85,6 +85,75 @@ theorem leT_total (flags : List (Bool × Bool)) (a b : List Val) : (leT flags a 
   rw [this]
   cases cmpKeysT flags b a <;> rfl
 
+/-! ### the lawful comparator identifies exactly equal vectors -/
+
+theorem then_eq_eq (a b : Ordering) : a.then b = .eq ↔ a = .eq ∧ b = .eq := by cases a <;> cases b <;> simp [Ordering.then]
+
+theorem totalKey_inj (x y : F64) (h : x.totalKey = y.totalKey) : x = y := by
+  cases x with | mk bx => cases y with | mk by_ =>
+  simp only [F64.totalKey, F64.signBit, F64.mag] at h
+  have hx := bx.toNat_lt
+  have hy := by_.toNat_lt
+  have : bx.toNat = by_.toNat := by
+    simp only [decide_eq_true_eq] at h
+    split at h <;> split at h <;> omega
+  congr 1
+  exact UInt64.toNat_inj.1 this
+
+theorem cmpAsc_eq (a b : Val) : cmpAsc a b = .eq ↔ a = b := by
+  constructor
+  · intro h
+    simp only [cmpAsc, compareLex, compareOn, then_eq_eq] at h
+    obtain ⟨h1, h2, h3⟩ := h
+    have e1 : tag a = tag b := LawfulEqOrd.eq_of_compare h1
+    have e2 : intPart a = intPart b := LawfulEqOrd.eq_of_compare h2
+    have e3 : strPart a = strPart b := LawfulEqOrd.eq_of_compare h3
+    cases a <;> cases b <;> simp only [tag, intPart, strPart] at e1 e2 e3 <;> first | rfl | omega | skip
+    · rename_i x y; cases x <;> cases y <;> simp_all
+    · simp_all
+    · rename_i x y; rw [totalKey_inj x y e2]
+    · simp_all
+    · simp_all
+  · rintro rfl; exact ReflCmp.compare_self
+
+theorem cmpValT_eq (desc nf : Bool) (a b : Val) : cmpValT desc nf a b = .eq ↔ a = b := by
+  constructor
+  · intro h
+    simp only [cmpValT, then_eq_eq, cmpPayload] at h
+    cases desc
+    · exact (cmpAsc_eq a b).1 (by simpa using h.2)
+    · exact ((cmpAsc_eq b a).1 (by simpa using h.2)).symm
+  · rintro rfl; exact ReflCmp.compare_self
+
+theorem cmpKeysT_eq (flags : List (Bool × Bool)) (as bs : List Val) (ha : as.length = flags.length) (hb : bs.length = flags.length) :
+    cmpKeysT flags as bs = .eq ↔ as = bs := by
+  induction flags generalizing as bs with
+  | nil =>
+    have : as = [] := by simpa using ha
+    have : bs = [] := by simpa using hb
+    simp_all [cmpKeysT]
+  | cons f fs ih =>
+    obtain ⟨d, nf⟩ := f
+    match as, bs, ha, hb with
+    | a :: as, b :: bs, ha, hb =>
+      simp only [cmpKeysT, List.headD_cons, List.tail_cons, then_eq_eq, cmpValT_eq,
+        ih as bs (by simpa using ha) (by simpa using hb), List.cons.injEq]
+
+/-- two key vectors of the right length are tied under the lawful order iff they are equal -/
+theorem tied_iff_eq (flags : List (Bool × Bool)) (as bs : List Val) (ha : as.length = flags.length) (hb : bs.length = flags.length) :
+    (leT flags as bs && leT flags bs as) = decide (as = bs) := by
+  have hsw := OrientedCmp.eq_swap (cmp := cmpKeysT flags) (a := as) (b := bs)
+  have hiff := cmpKeysT_eq flags as bs ha hb
+  by_cases he : as = bs
+  · subst he
+    have : cmpKeysT flags as as = .eq := ReflCmp.compare_self
+    simp [leT, this]
+  · have hne : cmpKeysT flags as bs ≠ .eq := fun h => he (hiff.1 h)
+    simp only [he, decide_false]
+    unfold leT
+    rw [hsw]
+    cases hc : cmpKeysT flags bs as <;> simp_all
+
 /-! ### agreement with `Spec.cmpKeys` on typed vectors -/
 
 /-- `v` is NULL or a value of column type `t` -/
